@@ -265,8 +265,31 @@ pub fn value_for(vr: &'static str, depth: usize) -> BoxedStrategy<Val> {
         "OD" => numvec::<u64>(8, false).prop_map(Val::F64).boxed(),
         "OL" => numvec::<u32>(4, false).prop_map(Val::U32).boxed(),
         "UL" => numvec::<u32>(4, true).prop_map(Val::U32).boxed(),
-        "OV" | "UV" => numvec::<u64>(8, false).prop_map(Val::U64).boxed(),
-        "SV" => numvec::<i64>(8, false).prop_map(Val::I64).boxed(),
+        // 64-bit integers: uniform values plus the boundaries at which narrower representations stop fitting
+        "OV" | "UV" => counts()
+            .prop_flat_map(|n| {
+                vec(
+                    prop_oneof![
+                        6 => any::<u64>(),
+                        1 => proptest::sample::select(vec![u64::MAX, u64::MAX - 1, u64::MAX - (1 << 31), u64::MAX - (1 << 31) + 1, 1 << 63, (1 << 63) - 1, (1 << 53) + 1, 1 << 32, u32::MAX as u64, 1 << 31, (1 << 31) - 1, 0]),
+                    ],
+                    n,
+                )
+            })
+            .prop_map(Val::U64)
+            .boxed(),
+        "SV" => counts()
+            .prop_flat_map(|n| {
+                vec(
+                    prop_oneof![
+                        6 => any::<i64>(),
+                        1 => proptest::sample::select(vec![i64::MAX, i64::MIN, i64::MIN + 1, -1, -(1 << 31), -(1 << 31) - 1, 1 << 31, (1 << 31) - 1, (1 << 53) + 1, -(1 << 53) - 1, 1 << 32, 0]),
+                    ],
+                    n,
+                )
+            })
+            .prop_map(Val::I64)
+            .boxed(),
         "OW" => numvec::<u16>(2, false).prop_map(Val::U16).boxed(),
         "US" => numvec::<u16>(2, true).prop_map(Val::U16).boxed(),
         "SS" => numvec::<i16>(2, true).prop_map(Val::I16).boxed(),
